@@ -4,6 +4,7 @@ import (
 	"encoding/json"
 	"errors"
 	"fmt"
+	"math"
 
 	"github.com/libsv/go-bt/v2/bscript"
 )
@@ -163,7 +164,7 @@ func (o *nodeOutputJSON) toOutput() (*Output, error) {
 	if err != nil {
 		return nil, err
 	}
-	out.Satoshis = uint64(o.Value * 100000000)
+	out.Satoshis = uint64(math.Round(o.Value * 100000000))
 	out.LockingScript = s
 	return out, nil
 }
